@@ -1,7 +1,9 @@
 """Regenerates MANIFEST.json from the table below (keeps it schema-valid at all times)."""
 import json
 
-props = [json.loads(l) for l in open('/verif/properties.jsonl')]
+import os
+ROOT = os.path.dirname(os.path.dirname(os.path.abspath(__file__)))
+props = [json.loads(l) for l in open(os.path.join(ROOT, 'properties.jsonl'))]
 ids = [p['id'] for p in props]
 
 NOTE_COMMON = ('Trusted: Coq 8.16.1 kernel incl. vm_compute (no native_compute); no axioms (Print Assumptions re-run on every check); '
@@ -87,5 +89,5 @@ for i in ids:
         })
     else:
         m['not_applicable'].append({'property_id': i, 'reason': NA_REASON})
-json.dump(m, open('/verif/MANIFEST.json', 'w'), indent=1)
+json.dump(m, open(os.path.join(ROOT, 'MANIFEST.json'), 'w'), indent=1)
 print('checks:', [c['property_id'] for c in m['checks']])
